@@ -21,7 +21,10 @@ RULE = ("valid: Hypothesis draws a derivation tree of the documented grammar (at
         "Fractions; non-trivial = nesting depth >= 2, or a tagged atom (isotope/ion) with count != 1 inside "
         "a group with count != 1; distinct by rendered string. malformed: one malformation from the fixed "
         "list applied to a valid rendering, every one non-trivial, distinct by string; oracle = the call raises. "
-        "Each case runs on the public table and on a private table.")
+        "Each case runs on the public table and on a private table. customised: a second private table whose "
+        "masses and densities are rescaled (the documented H=1 style customisation, factors drawn) BETWEEN two "
+        "parses of the same rendering; the oracle reads the table's current masses/densities, so the density of a "
+        "lone atom and the '@dn' conversion must follow the table as it is at the time of each parse.")
 ASSUMPTIONS = [
     "only strings derivable from doc/sphinx/guide/formula_grammar.rst are generated; strings the parser "
     "accepts beyond it ('2 H2O', '(X) 2Y', leading/trailing blanks) are neither generated nor judged",
@@ -391,6 +394,67 @@ def task_valid(ctx, n, depth, tower=0):
     ctx.search("valid", strat, fn, n)
 
 
+SCALES = [1.0, 1.0 / 1.00782503223, 0.5, 2.0, 1.25]
+
+
+def custom_table():
+    """A private table whose data the check customises (doc/sphinx/guide/customizing.rst), with its pristine values."""
+    E = env()
+    if "custom" not in E["tables"]:
+        from periodictable import core, mass, density
+        T = core.PeriodicTable("c01-custom")
+        mass.init(T)
+        density.init(T)
+        pristine = []
+        for el in T:
+            pristine.append((el, el._mass, el._density, 0))
+            for iso in el:
+                pristine.append((iso, iso._mass, None, 1))
+        E["tables"]["custom"] = T
+        E["pristine"] = pristine
+    return E["tables"]["custom"]
+
+
+def set_scale(km, ki, kd):
+    """element masses x km, isotope masses x ki, element densities x kd (relative to the pristine values)"""
+    for obj, m, d, isiso in env()["pristine"]:
+        obj._mass = m * (ki if isiso else km)
+        if d is not None:
+            obj._density = d * kd
+
+
+def check_custom(ctx, value):
+    """value = (tree, [[km, kd], ...]): parse the same rendering after each customisation step."""
+    tree, steps = value
+    custom_table()
+    try:
+        for i, (km, ki, kd) in enumerate(steps):
+            set_scale(km, ki, kd)
+            try:
+                check_valid(ctx, tree, "custom")
+            except Violation as v:
+                raise Violation(v.bucket + (":after-customising" if i else ""),
+                                v.message + " [table customised: element masses x%r, isotope masses x%r, densities x%r, step %d]"
+                                % (km, ki, kd, i),
+                                {"kind": "custom", "tree": tree, "steps": steps, "string": fa.render(tree)})
+    finally:
+        set_scale(1.0, 1.0, 1.0)
+
+
+def task_custom(ctx, n, depth):
+    E = env()
+    pool = E["pool"]
+    # lone atoms and '@dn' tags are where the table's data enter the density: weight them up
+    lone = fa.compound(pool, depth=0, max_groups=1, max_atoms=1)
+    strat = st.tuples(st.one_of(fa.compound(pool, depth=depth), lone),
+                      st.lists(st.tuples(st.sampled_from(SCALES), st.sampled_from(SCALES), st.sampled_from(SCALES)).map(list),
+                               min_size=2, max_size=3))
+
+    def fn(c, v):
+        check_custom(c, v)
+    ctx.search("customised", strat, fn, n)
+
+
 def task_malformed(ctx, n):
     E = env()
     pool = E["pool"]
@@ -408,6 +472,7 @@ def tasks(tier):
         return [("valid-a", task_valid, dict(n=1000, depth=3)),
                 ("valid-b", task_valid, dict(n=1000, depth=2)),
                 ("deep", task_valid, dict(n=250, depth=0, tower=12)),
+                ("customised", task_custom, dict(n=500, depth=2)),
                 ("malformed-a", task_malformed, dict(n=1000)),
                 ("malformed-b", task_malformed, dict(n=1000))]
     out = []
@@ -415,13 +480,16 @@ def tasks(tier):
         out.append(("valid-%d" % k, task_valid, dict(n=12000, depth=2 + k % 4)))
     out.append(("deep-0", task_valid, dict(n=3000, depth=0, tower=40)))
     out.append(("deep-1", task_valid, dict(n=3000, depth=0, tower=25)))
-    for k in range(6):
+    for k in range(5):
         out.append(("malformed-%d" % k, task_malformed, dict(n=15000)))
+    out.append(("customised", task_custom, dict(n=8000, depth=3)))
     return out
 
 
 def replay(ctx, case):
-    if case["kind"] == "valid":
+    if case["kind"] == "custom":
+        check_custom(ctx, (case["tree"], case["steps"]))
+    elif case["kind"] == "valid":
         check_valid(ctx, case["tree"], case.get("table", "public"))
     else:
         check_malformed(ctx, (case["tree"], case["malformation"], case["r"]), case.get("table", "public"))
